@@ -17,6 +17,7 @@ package s2
 import (
 	"bufio"
 	"encoding/binary"
+	"fmt"
 	"io"
 	"math"
 )
@@ -201,7 +202,12 @@ func (d *decoder) readFloat64() float64 {
 	}
 	buf := d.buffer()
 	_, d.err = io.ReadFull(d.r, buf)
-	return math.Float64frombits(binary.LittleEndian.Uint64(buf))
+	v := math.Float64frombits(binary.LittleEndian.Uint64(buf))
+	if d.err == nil && (math.IsNaN(v) || math.IsInf(v, 0)) {
+		d.err = fmt.Errorf("s2: non-finite value %v in encoding", v)
+		return 0
+	}
+	return v
 }
 
 func (d *decoder) readUvarint() (x uint64) {
